@@ -158,7 +158,16 @@ def run(tier, seed, replay=None):
         dcases[cid] = (s2, s2["default"])
         cases.append({"id": cid, "settings": {}, "history": [{"op": "root", "schema": {"definitions": {"D": s2}}}],
                       "opts": {"facts": False, "code": False, "has_impl": False, "hooks": False}})
-    dsample = dsample + [None] * 3
+    for s2 in ({"type": "integer", "format": "uint64", "minimum": 0, "maximum": 1000, "default": 10000000000000000000},
+               {"type": "integer", "format": "uint64", "maximum": 4611686018427387904, "default": 18446744073709551615},
+               {"type": "integer", "format": "uint64", "minimum": 0, "maximum": 1000, "default": 1000},
+               {"type": "integer", "format": "uint64", "default": 18446744073709551615}):
+        cid = "d%05d" % k
+        k += 1
+        dcases[cid] = (s2, s2["default"])
+        cases.append({"id": cid, "settings": {}, "history": [{"op": "root", "schema": {"definitions": {"D": s2}}}],
+                      "opts": {"facts": False, "code": False, "has_impl": False, "hooks": False}})
+    dsample = dsample + [None] * 7
     # directed: a recognised format whose fast path is left (multipleOf, or an explicit bound outside the format) with a
     # default beyond the format's range on the side that carries no explicit bound
     k = len(dsample)
